@@ -199,7 +199,94 @@ def run_history(part, K):
     part.add("frames", ("history", K))
 
 
+def run_loops(part, h, w):
+    """Behavioural binding of the accessors to the loop constraints: each constraint is posted on a fresh frame; the edge
+    sets the *accessors* return for a cell (its four sides), for one segment, and for two segments meeting at a lattice
+    point are imposed as the only active edges.  A cell's sides must be admitted as a single cycle, one segment / two
+    segments at a point as a single path, with the returned array forced true exactly at the lattice points those
+    segments join; two segments that do not touch must be refused."""
+    from cspuz import BoolGridFrame, Solver, graph
+    from cspuz.expr import BoolExpr, Op
+
+    from mc import gcheck
+
+    def post(kind):
+        s = Solver()
+        s.bool_array(2)
+        fr = BoolGridFrame(s, h, w)
+        if kind == "cycle-aux":
+            passed = graph.active_edges_single_cycle(s, fr, use_graph_primitive=False)
+        elif kind == "cycle-native":
+            passed = graph.active_edges_single_cycle(s, fr, use_graph_primitive=True)
+        elif kind == "loop":
+            passed = fr.single_loop()
+        elif kind == "path-native":
+            passed = graph.active_edges_single_path(s, fr, use_graph_primitive=True)
+        else:
+            passed, _ = graph.active_edges_connected_crossable(s, fr, single_cycle=(kind == "crossable-cycle"), use_graph_primitive=False)
+        return s, fr, passed
+
+    def ask(kind, s, fr, passed, active, want_points, what):
+        allv = list(fr.all_edges())
+        act = set(v.id for v in active)
+        fixes = [gcheck.fix(v, v.id in act) for v in allv]
+        case = {"frame": [h, w], "built": "default", "constraint": kind, "what": what}
+        part.count("evaluations")
+        try:
+            sat = gcheck.decide(s, fixes)
+            if want_points is None:
+                if sat is not False:
+                    part.violation("loops[%s]:non-touching-segments-admitted" % kind, case, {})
+                return
+            if sat is not True:
+                part.violation("loops[%s]:accessor-edge-set-refused" % kind, case, {"observed_sat": sat})
+                return
+            flat = list(passed)
+            exp = [(divmod(k, w + 1) in want_points) for k in range((h + 1) * (w + 1))]
+            differs = BoolExpr(Op.OR, [BoolExpr(Op.XOR, [pv, b]) for pv, b in zip(flat, exp)])
+            if gcheck.decide(s, fixes + [differs]) is not False:
+                part.violation("loops[%s]:visited-points-differ-from-geometry" % kind, case, {"expected_points": sorted(want_points)})
+        except Exception as e:
+            part.violation("loops[%s]:raises-%s" % (kind, type(e).__name__), case, {"exception": repr(e)[:200]})
+
+    for kind in ("cycle-aux", "cycle-native", "loop", "path-native", "crossable-cycle", "crossable-path"):
+        try:
+            s, fr, passed = post(kind)
+        except Exception as e:
+            part.violation("loops[%s]:post-raises-%s" % (kind, type(e).__name__), {"frame": [h, w], "built": "default", "constraint": kind}, {"exception": repr(e)[:200]})
+            continue
+        is_cycle = kind in ("cycle-aux", "cycle-native", "loop", "crossable-cycle")
+        if is_cycle:
+            for y in range(h):
+                for x in range(w):
+                    ask(kind, s, fr, passed, list(fr.cell_neighbors(y, x)), {(y, x), (y + 1, x), (y, x + 1), (y + 1, x + 1)}, "sides of cell (%d,%d)" % (y, x))
+        else:
+            # one segment addressed by doubled coordinates
+            for Y in range(2 * h + 1):
+                for X in range(2 * w + 1):
+                    if (Y + X) % 2 == 1:
+                        pts = {(Y // 2, (X - 1) // 2), (Y // 2, (X + 1) // 2)} if Y % 2 == 0 else {((Y - 1) // 2, X // 2), ((Y + 1) // 2, X // 2)}
+                        ask(kind, s, fr, passed, [fr[Y, X]], pts, "segment [%d,%d]" % (Y, X))
+            # two segments meeting at a lattice point; two segments at opposite corners of the frame
+            for y in range(h + 1):
+                for x in range(w + 1):
+                    around = {}
+                    for (dy, dx) in ((0, 1), (0, -1), (1, 0), (-1, 0)):
+                        if 0 <= y + dy <= h and 0 <= x + dx <= w:
+                            around[(y + dy, x + dx)] = fr[2 * y + dy, 2 * x + dx]
+                    keys = sorted(around)
+                    for i in range(len(keys)):
+                        for j in range(i + 1, len(keys)):
+                            ask(kind, s, fr, passed, [around[keys[i]], around[keys[j]]], {(y, x), keys[i], keys[j]}, "segments at point (%d,%d) towards %r and %r" % (y, x, keys[i], keys[j]))
+            if h >= 1 and w >= 2:
+                ask(kind, s, fr, passed, [fr[0, 1], fr[2 * h, 2 * w - 1]], None, "top-left and bottom-right horizontal segments")
+    part.add("frames", ("loops", h, w))
+
+
 def worker(shard, part):
+    if shard[0] == "loops":
+        run_loops(part, shard[1], shard[2])
+        return
     if shard[0] == "history":
         run_history(part, shard[1])
         return
@@ -218,11 +305,13 @@ def main(tier, seed, only=None):
         shards.append((h, w, "dual-of-inner"))
     for K in ((10, 16, 64, 100, 256, 1000) if tier == "quick" else (8, 10, 16, 32, 64, 100, 128, 256, 512, 1000, 1024, 4096)):
         shards.append(("history", K))
+    for (h, w) in ([(1, 1), (1, 2), (2, 1), (2, 2), (2, 3), (3, 2), (1, 4)] if tier == "quick" else [(1, 1), (1, 2), (2, 1), (2, 2), (2, 3), (3, 2), (1, 4), (4, 1), (3, 3), (3, 4), (4, 3), (2, 5)]):
+        shards.append(("loops", h, w))
     run = harness.Run(
         PID, tier, seed, "exploration",
         "BoolGridFrame with h, w in 0..%d (plus large frames 16x17, 1x300, 33x2; thorough 45x45, 64x33), built by default, from explicit arrays, and as the dual of a BoolInnerGridFrame; __getitem__ at "
         "every doubled coordinate in [-2,2h+2]x[-2,2w+2]; cell_neighbors / vertex_neighbors at every coordinate in [-1,h+1]x[-1,w+1] in both call "
-        "forms; all_edges, iteration, graph._from_grid_frame, dual(), dual().dual(); histories: pairs / triples of frames whose shapes collide under a packed key h*K+w for K in 10..1000 (thorough 4096), handled back to back in one process.  Reference model: segment = pair of lattice points -> "
+        "forms; all_edges, iteration, graph._from_grid_frame, dual(), dual().dual(); histories: pairs / triples of frames whose shapes collide under a packed key h*K+w for K in 10..1000 (thorough 4096), handled back to back in one process; loop constraints (single cycle aux / native / single_loop(), single path, crossable cycle / path) posted on frames up to 2x3 (thorough 3x4): the edge sets the accessors return for each cell, each segment and each pair of segments at a lattice point are imposed and must be admitted with the visited-point array forced to the geometry.  Reference model: segment = pair of lattice points -> "
         "variable id.  Non-trivial = distinct (frame, construction) fully checked." % top,
     )
     run.assumptions = ["order inside cell_neighbors / vertex_neighbors results is not judged (the property speaks of edge sets)"]
@@ -237,6 +326,10 @@ def replay(case):
         for K in (8, 10, 16, 32, 64, 100, 128, 256, 512, 1000, 1024, 4096):
             run_history(part, K)
         mine = [v for v in part.violations if v.case.get("history") == case["history"] and v.case.get("frame") == case["frame"]]
+        return (not mine), (mine[0].detail if mine else "agrees")
+    if "constraint" in case:
+        run_loops(part, case["frame"][0], case["frame"][1])
+        mine = [v for v in part.violations if v.case.get("constraint") == case["constraint"] and v.case.get("what") == case.get("what")]
         return (not mine), (mine[0].detail if mine else "agrees")
     run_frame(part, case["frame"][0], case["frame"][1], case["built"])
     mine = [v for v in part.violations if all(v.case.get(k) == case.get(k) for k in ("at", "form"))]
